@@ -11,7 +11,9 @@ Every operation is a function State -> State written from the docstrings of debt
   insert            new package with its tags; each tag lists it
   reverse(_copy)    roles swapped
   copy              same content
-  facet_collection  every tag replaced by the text before its first ':'
+  facet_collection  every tag replaced by its facet = the text before its '::' (defined for tags of
+                    the documented shape facet::name only, see ``facetable``); the collection is
+                    built by inserting every package with its facet set (``rebuild``)
   choose/filter_packages*, filter_packages_tags*   forward index restricted, reverse = its inverse
   filter_tags*      reverse index restricted, forward = its inverse
 
@@ -29,7 +31,7 @@ such a state through later derivations.
 """
 import re
 
-FACETABLE = re.compile(r"^[^:]+:")
+FACETABLE = re.compile(r"^[^:]+::")
 
 
 def facet_of(tag):
@@ -37,6 +39,11 @@ def facet_of(tag):
 
 
 def facetable(tag):
+    """A tag has a facet when it has the documented shape ``facet::name``: a non-empty text without
+    colon, then '::' (the name may hold further colons: works-with::image:raster, h::x::y).  For
+    such a tag "the text before the first colon" and "the text before the first '::'" are the same
+    string.  For every other text (f:x, f:sub::y, special, :x) nothing documents what its facet
+    is, and the model does not say."""
     return FACETABLE.match(tag) is not None
 
 
@@ -119,11 +126,16 @@ def swapped(s):
     return State(c.rev, c.fwd)
 
 
-def facet(s, order=None, deviant=False):
+def rebuild(fwd, order=None, deviant=False):
+    """The collection obtained by inserting every package of ``fwd`` with its set, in ``order``."""
     n = State()
-    for p in (sorted(s.fwd) if order is None else order):
-        _insert_into(n, p, {facet_of(t) for t in s.fwd[p]}, deviant)
+    for p in (sorted(fwd) if order is None else order):
+        _insert_into(n, p, set(fwd[p]), deviant)
     return n
+
+
+def facet(s, order=None, deviant=False):
+    return rebuild({p: {facet_of(t) for t in ts} for p, ts in s.fwd.items()}, order, deviant)
 
 
 def restrict_packages(s, keep):
